@@ -26,7 +26,7 @@ RULE = ("polar sets over the 12 supported symbols: all 12 or a random subset (mi
 CLAUSES = ["keys-complete", "roundtrip-term-chi", "roundtrip-total-chi", "roundtrip-kernel", "isotropic-preserved",
            "amplitude-preserved"]
 QUICK = dict(n=900, time=30)
-THOROUGH = dict(n=40000, time=200, shards=16)
+THOROUGH = dict(n=320000, time=480, shards=16)
 ASSUMPTIONS = ["magnitudes restricted to 1e-4..1e9 Angstrom or exactly 0 (no float under/overflow of C**2)",
                "wavelength from the CODATA-2014 closed form (C24)"]
 
